@@ -385,6 +385,11 @@ def dry_files(lang, u, nfiles, n, noise):
     for k in range(nfiles):
         nz = noise[k % len(noise)]
         lines = [f"{c} note {i} for file {k}" for i in range(nz.get("lead", 0))]
+        if lang == "py" and nz.get("sep"):
+            # a character that str.splitlines() treats as a line boundary but the language does not (only "\n" ends a
+            # line): line numbers must not be counted with splitlines()
+            ch = ["\x0c", "\x0b", "\x1c", "\x1d", "\x1e", "\x85", "\u2028", "\u2029"][nz["sep"] % 8]
+            lines.append(f"{c} section{ch}break {k}")
         if lines:
             lines.append("")
         d = nz.get("doc", 0)
